@@ -34,17 +34,17 @@ def loaded_obs(r):
             "ogmd": gmd(r.group_metadata("observation")), "sgmd": gmd(r.group_metadata("sample"))}
 
 
-def run_loader(path, loader, axis):
+def run_loader(path, loader, axis, group=None):
     import h5py
     import biom
     from biom import Table
     try:
         if loader == "from_hdf5":
             with h5py.File(path, "r") as f:
-                r = Table.from_hdf5(f, axis=axis)
+                r = Table.from_hdf5(f if group is None else f[group], axis=axis)
         elif loader == "parse_table":
             with h5py.File(path, "r") as f:
-                r = biom.parse_table(f)
+                r = biom.parse_table(f if group is None else f[group])
         else:
             r = biom.load_table(path)
         return {"ok": loaded_obs(r)}
@@ -83,20 +83,23 @@ def write_read_load(case, tmp=TMP):
     c04.fresh(path)
     try:
         try:
-            gen_by, date = c04.write_file(case, t, path)
+            gen_by, date = c04.write_file(case, t, path, tmp)
         except Exception as e:                      # noqa: BLE001
             raise c04.Unobservable("write", e, src)
         try:
-            raw = c04.raw_tree(path)
+            grp = c04.group_name(case)
+            raw = c04.raw_tree(path, grp)
             sn = sniff(path)
         except Exception as e:                      # noqa: BLE001
             raise c04.Unobservable("raw-read", e, src)
         bad = unsafe_views(raw, len(src["obs"]), len(src["samp"]))
+        # a table inside a non-root group is reached through the open handle only (load_table takes a path)
+        loaders = [(ld, ax) for ld, ax in LOADERS if grp is None or ld != "load_table"]
         if bad is None:
-            results = [(ld, ax, run_loader(path, ld, ax)) for ld, ax in LOADERS]
+            results = [(ld, ax, run_loader(path, ld, ax, grp)) for ld, ax in loaders]
         else:
             results = [(ld, ax, {"error": "Other", "message": "not loaded: %s/matrix arrays leave the shape" % bad,
-                                 "unsafe": bad}) for ld, ax in LOADERS]
+                                 "unsafe": bad}) for ld, ax in loaders]
     finally:
         if os.path.exists(path):
             os.remove(path)
@@ -110,6 +113,10 @@ def check_case(ctx, case, tmp=TMP):
         src, pre, raw, gen_by, date, sn, results = write_read_load(case, tmp)
     except c04.Unobservable as u:
         ctx.case({"case": case, "unobservable": u.stage}, nontrivial=False)
+        if u.stage == "history":
+            ctx.count("history-raised(skipped):" + case["route"])
+            ctx.notes.append("history raised, case skipped: %s" % u)
+            return []
         ctx.fail({"case": case}, "C01.%s-raised" % u.stage, ["route=" + case["route"], "writer=" + case["writer"],
                                                             "exc=" + u.exc_name], detail={"what": str(u), "src": u.src})
         return []
@@ -122,7 +129,8 @@ def check_case(ctx, case, tmp=TMP):
     for ax in ("omd", "smd"):
         if src[ax]:
             for k, v in src[ax][0]:
-                ctx.count("md=" + v["t"] + ("/special" if k in c04.SPECIAL else "") + ("/slash" if "/" in k else ""))
+                ctx.count("md=" + v["t"] + ("/special" if k in c04.SPECIAL else "/lookalike" if k in c04.LOOKALIKES else "") +
+                          ("/slash" if "/" in k else ""))
     out = []
     for ld, ax, res in results:
         if res.get("unsafe"):
@@ -149,7 +157,11 @@ def check_case(ctx, case, tmp=TMP):
 def edge_stream(ctx, tmp=TMP):
     """inputs outside the domain (see c04.EDGE): only model/code agreement is checked"""
     for name, case in c04.EDGE.items():
-        src, pre, raw, gen_by, date, sn, results = write_read_load(case, tmp)
+        try:
+            src, pre, raw, gen_by, date, sn, results = write_read_load(case, tmp)
+        except c04.Unobservable as u:
+            ctx.count("out-of-domain(agreement only):%s:real code raised at %s" % (name, u.stage))
+            continue
         base = c04.request(case, src, pre, raw, gen_by, date)
         ctx.case({"edge": name}, nontrivial=False)
         for ld, ax, res in results:
@@ -163,7 +175,7 @@ def edge_stream(ctx, tmp=TMP):
 
 
 # the repaired defects first: non-ASCII IDs (F-C01-1, corpus/probes/p01.py), empty-axis ids dataset (F-C04-1)
-CORPUS = [
+CORPUS = c04.CORPUS[:2] + c04.CORPUS_R2 + [
     {"spec": {"obs": ["ö1", "o2"], "samp": ["s1", "sé2"], "rows": [[1.0, 2.0], [3.0, 4.0]],
               "omd": [{"k": "x"}, {"k": "ü"}], "smd": None, "type": None},
      "route": "dense", "perm_seed": 0, "generated_by": "x", "compress": True, "date": None, "ogmd": None, "sgmd": None,
@@ -197,11 +209,15 @@ def run(ctx):
     os.makedirs(tmp, exist_ok=True)
     try:
         if widx == 0:
+            c04.poison_process(ctx, tmp)
             for case in CORPUS:
                 check_case(ctx, case, tmp)
                 ctx.count("corpus")
         n = 380 if ctx.quick() else 24000 // wcount
-        for _ in range(n):
+        c04.poison_process(ctx, tmp)
+        for k in range(n):
+            if k == n // 2:
+                c04.poison_process(ctx, tmp)
             check_case(ctx, c04.gen_case(ctx.rng, ctx.quick(), empty_axes=(ctx.rng.random() < 0.3)), tmp)
         if widx == 0:
             edge_stream(ctx, tmp)
